@@ -7,6 +7,7 @@ package upload
 import (
 	"context"
 	"encoding/xml"
+	"errors"
 	"io"
 	"net/http"
 	"net/url"
@@ -94,6 +95,10 @@ func allowedHeader(name string) bool {
 // Put returns a put request with the appropriate headers that can be used to
 // upload a file to the slot.
 func (s Slot) Put(ctx context.Context, body io.Reader) (*http.Request, error) {
+	// A slot decoded from a reply that carried no <put/> element has no URL.
+	if s.PutURL == nil {
+		return nil, errors.New("upload: slot has no put URL")
+	}
 	req, err := http.NewRequestWithContext(ctx, http.MethodPut, s.PutURL.String(), body)
 	if err != nil {
 		return nil, err
